@@ -3018,22 +3018,36 @@ def C10_target_full (c : TgtCfg) : Prop :=
     (targetAfter c old r).keys = (r.descr old.name).keys ∧ (targetAfter c old r).inner = (r.descr old.name).inner ∧
       (targetAfter c old r).named = (r.descr old.name).named
 
-theorem C10_target_full_of_good (c : TgtCfg) (h : c.resetTarget = true) : C10_target_full c := by
+theorem C10_target_full_of_good (c : TgtCfg) (h : c.resetTarget = true) (h2 : c.resetSameLayout = true) :
+    C10_target_full c := by
   intro old r hr
   cases r with
   | scalar p => simp [Result.isArr] at hr
-  | vector nm es => simp [targetAfter, h]
-  | matrix rows => simp [targetAfter, h]
+  | vector nm es => simp [targetAfter, h, h2]
+  | matrix rows => simp [targetAfter, h, h2]
 
 /-- **witness**: without the reset a 3-vector target assigned a 2-vector result keeps three entries -/
 theorem C10_target_witness (c : TgtCfg) (h : c.resetTarget = false) : ¬ C10_target_full c := by
   cases c with
-  | mk r =>
+  | mk r l =>
     simp only at h; subst h
     intro hf
     have := (hf (Elem.vec "R" 3) (.vector false [(.i 0, .num "1"), (.i 1, .num "2")]) rfl).1
     revert this
-    decide +kernel
+    cases l <;> decide +kernel
+
+/-- **witness** for a reset conditioned on the layout alone: a target holding a named vector over `north, south` that is
+assigned a named-vector result over `east, coast` (same length, same kind of index) ends up with four entries — the
+key set of the target is not the key set of the equation -/
+theorem C10_target_witness_layout (c : TgtCfg) (h : c.resetSameLayout = false) : ¬ C10_target_full c := by
+  cases c with
+  | mk r l =>
+    simp only at h; subst h
+    intro hf
+    have := (hf { name := "R", keys := [.s "north", .s "south"], inner := [], named := true }
+      (.vector true [(.s "east", .num "1"), (.s "coast", .num "2")]) rfl).1
+    revert this
+    cases r <;> decide +kernel
 
 /-- every kind of target that accepts an arrayed equation shows the entries of the equation -/
 def C10_target_kinds (c : KindCfg) : Prop :=
@@ -3190,7 +3204,7 @@ def C10_full : Prop :=
       (¬ (d1 = .val ∧ d2 = .val) ∧
         (d1 = .val ∨ d2 = .val ∨ (if d1.isVec then d1.rows = d2.rows else d1.snd = d2.rows)))) ∧
   -- wave 7: the target holds exactly the result's entries (mechanism of the repaired code)
-  C10_target_full ⟨true⟩
+  C10_target_full ⟨true, true⟩
 
 theorem C10_full_holds : C10_full := by
   refine ⟨fun f a b r h p hp => ⟨expand_wl f a b r h p hp, expand_parses f a b r h p hp⟩,
@@ -3198,7 +3212,7 @@ theorem C10_full_holds : C10_full := by
     expand_none_of_resolve, expand_none_of_ctor, matEntries_entry, vecEntries_entry, C10_wave2_holds,
     runHist_store, use_after_history, agg_after_history,
     C10_nested_full_of_good ⟨true⟩ rfl, C10_rejects_of_good ⟨true⟩ rfl, expandE_rejects,
-    resolveEwD_some_iff, resolveDotD_some_iff, C10_target_full_of_good ⟨true⟩ rfl⟩
+    resolveEwD_some_iff, resolveDotD_some_iff, C10_target_full_of_good ⟨true, true⟩ rfl rfl⟩
   · intro R _ O ρ σ
     exact ⟨elementwise_spec O ρ σ, nmul_spec O ρ σ, dot_mm O ρ σ, dot_mv O ρ σ, dot_vm O ρ σ, dot_vv O ρ σ,
       fun a b idx p hb ha h => dot_scalar_right O ρ σ a b idx hb ha p h,
@@ -3243,6 +3257,7 @@ example :
 #print axioms C10_rejects_witness
 #print axioms C10_target_full_of_good
 #print axioms C10_target_witness
+#print axioms C10_target_witness_layout
 #print axioms C10_target_kinds_of_good
 #print axioms C10_target_kinds_witness
 #print axioms expandE_rejects
